@@ -144,7 +144,7 @@ def literal_dimension(facts, res, roots_only=None):
 
 
 LIST_BUILDERS = ["getInteractionListForIndex", "getInteractionListForBlock", "getNeighborListForIndex", "getNeighborListForBlock", "getSelfListForBlock",
-                 "getTreeCoordinate", "getNbInteractionsPerCell", "getNbNeighborsPerLeaf", "getNbChildrenPerCell"]
+                 "getNbInteractionsPerCell", "getNbNeighborsPerLeaf", "getNbChildrenPerCell"]
 # what the per-cell and the per-group builders must share: neighbourhood limits, wrap shifts, too-close test, child loop, level guards
 SHARED = ["Limits", "periodicShift", "isTooClose", "boxLimite", "getChildIndexFromParent", "inLevel", "std::abs", "IsPeriodic", "idxChild", "Pos[idxDim]"]
 
@@ -207,7 +207,7 @@ def sibling_builders(facts, res):
                 res.violation(R + ".cell-vs-group", tbf.rel(facts.path_of(B2[k])), fb["qname"], ("extra:" + k)[:110], B2[k]["l"][1],
                               "the per-group builder %s has `%s` which the per-cell builder %s does not" % (y, k[:160], x))
             n += 1
-    res.floor(R, n, 13, "sibling comparisons")
+    res.floor(R, n, 12, "sibling comparisons")
 
 def bit_laws(facts, res):
     """C11.4: per-bit provenance of the coordinate<->index conversions and of the parent/child algebra"""
